@@ -240,6 +240,8 @@ def run(ctx):
         E.Prog("p_cfg_attr", "#[derive_ex::derive_ex(Clone, Debug, PartialEq)]\n" + cfg_item + rp, [], {"describe": "#[derive_ex(Clone, Debug, PartialEq)] " + cfg_item}),
         E.Prog("p_derive_plus_crate_path", "#[derive(derive_ex::Ex)]\n#[derive_ex::derive_ex(Eq, PartialEq, Debug)]\npub struct X { pub a: u8 }\n#[derive_ex::derive_ex(Eq, PartialEq, Debug)]\n#[derive(derive_ex::Ex)]\n#[derive_ex(Clone)]\npub struct Y { pub a: u8 }\n" + rp, [],
                {"describe": "#[derive(Ex)] stacked with a crate-path #[derive_ex::derive_ex(..)] attribute macro (each list expanded exactly once)"}),
+        E.Prog("p_kf_derive_helper_then_crate_path", "#[derive(derive_ex::Ex)]\n#[derive_ex(Clone)]\n#[derive_ex::derive_ex(Default)]\npub struct B(pub u8);\n" + rp, [],
+               {"describe": "#[derive(Ex)] #[derive_ex(Clone)] #[derive_ex::derive_ex(Default)] struct B(u8);"}),
         E.Prog("p_cfg_attr_helper_attr", "#[derive_ex::derive_ex(Ord, PartialOrd, Eq, PartialEq)]\npub struct X(#[cfg_attr(all(), ord(ignore))] pub u8, pub u8);\n" + rp, [],
                {"describe": "#[derive_ex(Ord, PartialOrd, Eq, PartialEq)] struct X(#[cfg_attr(all(), ord(ignore))] u8, u8);"}),
         E.Prog("p_cfg_attr_helper_derive", "#[derive(derive_ex::Ex)]\n#[derive_ex(Ord, PartialOrd, Eq, PartialEq)]\npub struct X(#[cfg_attr(all(), ord(ignore))] pub u8, pub u8);\n" + rp, [],
